@@ -166,6 +166,19 @@ def _construct(cfg, mods, env, log, nodes, edges):
 
 
 
+def _observe(env, edges, log):
+    """end of a simulated instant: OBS lines (implementation side only, read by the oracle, never
+    compared with the model) for every edge on which a request waits although it could be served"""
+    for i, ed in edges.items():
+        st = ed.inbuiltstore
+        free = st.capacity - len(st.items) - len(st.ready_items) - len(st.reservations_put)
+        if st.reserve_put_queue and free > 0:
+            log.lines.append("OBS %d %d put %d %d" % (env.now, i, len(st.reserve_put_queue), free))
+        avail = len(st.ready_items) - len(st.reservations_get)
+        if st.reserve_get_queue and avail > 0:
+            log.lines.append("OBS %d %d get %d %d" % (env.now, i, len(st.reserve_get_queue), avail))
+
+
 def run_impl(cfg):
     """returns the canonical output lines of the implementation"""
     mods = {k: common.load(k) for k in ("nodes.source", "nodes.machine", "nodes.sink", "nodes.splitter", "nodes.combiner", "edges.buffer", "edges.fleet",
@@ -226,6 +239,8 @@ def run_impl(cfg):
             while env.peek() < cfg["T"] and steps < budget:
                 env.step()
                 steps += 1
+                if env.peek() > env.now:
+                    _observe(env, edges, log)
             if steps >= budget:
                 crash = "EXHAUSTED"
             elif cfg["T"] > env.now:
@@ -359,7 +374,7 @@ def compare(cfg, impl, model):
         # a zero-time livelock / step budget: both sides must agree that the run does not finish
         return None if (impl == ["EXHAUSTED"]) == ("EXHAUSTED" in model) else (0, impl[:1], [l for l in model if l == "EXHAUSTED"][:1])
     m = strip_const_draws(cfg, canon_model(model))
-    i = strip_const_draws(cfg, impl)
+    i = [l for l in strip_const_draws(cfg, impl) if not l.startswith("OBS ")]
     for k, (a, b) in enumerate(itertools.zip_longest(i, m)):
         if a != b:
             return (k, a, b)
@@ -372,7 +387,7 @@ def diff_kinds(cfg, impl, model):
     if any(l.startswith(("CRASH", "EXHAUSTED")) for l in impl + model):
         return set()
     m = collections.Counter(strip_const_draws(cfg, canon_model(model)))
-    i = collections.Counter(strip_const_draws(cfg, impl))
+    i = collections.Counter(l for l in strip_const_draws(cfg, impl) if not l.startswith("OBS "))
     return {l.split()[0] for l in list((i - m).keys()) + list((m - i).keys()) if l}
 
 
@@ -621,7 +636,8 @@ def gen_invalid(rng):
         else:
             srcs = [n for n in cfg["nodes"] if n["kind"] == "source"]
             n = rng.choice(srcs)
-            n["blocking"], n["style"], n["delays"] = False, "const", [0]
+            # the documented domain of inter_arrival_time is "int or float": the float zeros count too
+            n["blocking"], n["style"], n["delays"] = False, "const", [rng.choice([0, 0, 0.0, -0.0])]
             cfg["model_skip"] = True
         return cfg
     return cfg
